@@ -210,15 +210,20 @@ class Path:
         y = var(key, "R")
         if key not in self.assign:
             f = x.v
-            num = round(f.numerator ** (1.0 / k))
-            den = round(f.denominator ** (1.0 / k))
+            num = core.iroot(f.numerator, k)
+            den = core.iroot(f.denominator, k)
             best = None
-            for a in (num - 1, num, num + 1):
-                for b in (den - 1, den, den + 1):
+            for a in (num, num + 1):
+                for b in (den, den + 1):
                     if a >= 0 and b > 0 and Fraction(a, b) ** k == f:
                         best = Fraction(a, b)
             if best is None:
-                best = Fraction(float(f) ** (1.0 / k)).limit_denominator(10**6)
+                try:
+                    best = Fraction(float(f) ** (1.0 / k)).limit_denominator(10**6)
+                except OverflowError:
+                    # huge rational: integer root of the scaled value (18 digits below the point)
+                    sh = 10 ** 18
+                    best = Fraction(core.iroot(f.numerator * sh**k // f.denominator, k), sh).limit_denominator(10**6)
                 if f != 0 and best == 0:
                     best = Fraction(1, 10**6)
             self.assign[key] = best
@@ -511,7 +516,21 @@ class Explorer:
             return self._witness(p, s.model())
         if r == z3.unsat:
             return "unsat"
-        # unknown: partial concretisation -- free only the variables of the target
+        # unknown: (a) linear abstraction (products become fresh reals): catches contradictions such as
+        # not(0 <= t) and not(0 <= -t) for a nonlinear t, which nlsat may fail to see within its limits
+        try:
+            cache = {}
+            s3 = z3.Solver()
+            s3.set("timeout", 5000)
+            for c in base:
+                s3.add(core.to_z3_abstract(c, cache))
+            s3.add(core.to_z3_abstract(target, cache))
+            if s3.check() == z3.unsat:
+                self.stats["abstract_unsat"] = self.stats.get("abstract_unsat", 0) + 1
+                return "unsat"
+        except z3.Z3Exception:
+            pass
+        # (b) partial concretisation -- free only the variables of the target
         tv = core.node_vars(target)
         allv = {}
         for c in base:
